@@ -29,7 +29,7 @@ func runC19(c *Ctx, r *Report) {
 	r.Rule("C19.R2", "every path of CreateOrSet to SetNoChecks tests Constant(name), and once the name is found bound no path reaches SetNoChecks at all (it returns an Error or the existing value: an Equal value is not an identical one)")
 	r.Rule("C06.R1", "check precedes mutation: (shared with C06) in-place writes to the storage of a looked-up binding happen before any constant check, so a constant holding a large array or map is modified although an error is returned")
 	r.Rule("C05.R3", "(shared with C05) no object that may be a live *Register reaches a binding store without object.Value/CopyRegister")
-	r.Rule("C19.R5", "object.Constant implements the documented predicate: evaluated on every ASCII character at the first and at a later position, it accepts exactly [A-Z] first and [A-Z0-9_] afterwards")
+	r.Rule("C19.R5", "object.Constant implements the documented predicate: evaluated on every ASCII character at the first and at a later position, evaluated (AST interpretation) on every ASCII name of length 1 and 2 and on representative names of length 3 and 4, it accepts exactly [A-Z][A-Z0-9_]*")
 	r.Rule("C19.R4", "register path: a register is bound to a name (setupRegister/MakeRegister) only where the name is known not to be a constant identifier")
 
 	envT := c.TypeNamed("object", "Environment")
@@ -183,25 +183,57 @@ func runC19(c *Ctx, r *Report) {
 	}
 	r.Floor("C19.R2", 2)
 
-	// R5: the predicate itself
+	// R5: the predicate itself, evaluated on concrete names
 	{
-		acc, ok := c.rangeLoopAccepts(constantFn)
-		if !ok {
-			r.Undecided("object.Constant: body is not a range loop of if/continue/return over the character and its index")
-		} else {
-			var bad []string
-			for pos := 0; pos < 2; pos++ {
-				for ch := 0; ch < 128; ch++ {
-					want := ch >= 'A' && ch <= 'Z'
-					if pos == 1 && (ch == '_' || (ch >= '0' && ch <= '9')) {
-						want = true
-					}
-					if acc[pos][ch] != want && len(bad) < 6 {
-						bad = append(bad, fmt.Sprintf("%q at position %d: accepted=%v", rune(ch), pos, acc[pos][ch]))
-					}
+		want := func(name string) bool {
+			for i := 0; i < len(name); i++ {
+				ch := name[i]
+				if ch >= 'A' && ch <= 'Z' {
+					continue
+				}
+				if i > 0 && (ch == '_' || (ch >= '0' && ch <= '9')) {
+					continue
+				}
+				return false
+			}
+			return true
+		}
+		var bad []string
+		undecided := false
+		n := 0
+		try := func(name string) {
+			if undecided {
+				return
+			}
+			got, ok := c.evalStringPred(constantFn, name)
+			if !ok {
+				undecided = true
+				return
+			}
+			n++
+			if got != want(name) && len(bad) < 6 {
+				bad = append(bad, fmt.Sprintf("%q: Constant=%v", name, got))
+			}
+		}
+		for a := 0; a < 128; a++ {
+			try(string(rune(a)))
+			for b := 0; b < 128; b++ {
+				try(string([]byte{byte(a), byte(b)}))
+			}
+		}
+		reps := []byte{'A', 'M', 'Z', 'a', 'z', '0', '5', '9', '_', '@', '[', '/', ':', ' ', 0x7f}
+		for _, a := range reps {
+			for _, b := range reps {
+				for _, d := range reps {
+					try(string([]byte{a, b, d}))
+					try(string([]byte{'A', a, b, d}))
 				}
 			}
-			r.Check(len(bad) == 0, "C19.R5", funcName(constantFn), "Constant accepts exactly [A-Z][A-Z0-9_]*", c.Pos(c.SSAFn(constantFn).Pos()),
+		}
+		if undecided {
+			r.Undecided("object.Constant: body is not (definitions; a range loop of if/continue/return over the character and its index; return) and could not be evaluated")
+		} else {
+			r.Check(len(bad) == 0, "C19.R5", funcName(constantFn), fmt.Sprintf("Constant accepts exactly [A-Z][A-Z0-9_]* (evaluated on %d ASCII names of length 1 to 4)", n), c.Pos(c.SSAFn(constantFn).Pos()),
 				"the constant-identifier predicate differs from the documented one ("+strings.Join(bad, "; ")+"): names that should be protected are not (or ordinary variables become unassignable)")
 		}
 	}
